@@ -1,7 +1,7 @@
 """C07 — packet decoders accept exactly the well-formed packets (structural part). DESIGN §4 C07."""
 import ast
 
-from .common import ctx, returns, calls_in_ctx, reach_from_succ, site, srcs_text, escape_check, resolve_call, truthy_label, full_text, alias_text
+from .common import ctx, returns, calls_in_ctx, reach_from_succ, site, srcs_text, escape_check, resolve_call, truthy_label, full_text, alias_text, orient
 from .lvs import raising_edge, cmp_sides
 from ..flow import callee_attr
 from ..loader import AnalysisError, norm, FuncT
@@ -85,12 +85,12 @@ def scan_loop_rules(R, oid):
     nfields = full_text(pr, ast.parse('len(ret._encoded_fields)', mode='eval').body)
     found_t, found_lab = [], {}
     for t in pr.cfg.nodes:
-        if t.kind == 'test' and isinstance(t.stmt, ast.If) and isinstance(t.ast, ast.Compare) and len(t.ast.ops) == 1 \
-                and isinstance(t.ast.left, ast.Name) and t.ast.left.id == 'i' and full_text(pr, t.ast.comparators[0]) == nfields:
-            if isinstance(t.ast.ops[0], ast.Lt):
+        o = orient(t.ast, lambda e: isinstance(e, ast.Name) and e.id == 'i') if t.kind == 'test' and isinstance(t.stmt, ast.If) else None
+        if o is not None and full_text(pr, o.comparators[0]) == nfields:
+            if isinstance(o.ops[0], ast.Lt):
                 found_t.append(t)
                 found_lab[t.id] = True
-            elif isinstance(t.ast.ops[0], (ast.GtE, ast.Eq)):
+            elif isinstance(o.ops[0], (ast.GtE, ast.Eq)):
                 found_t.append(t)
                 found_lab[t.id] = False
     crit = [t for t in pr.cfg.nodes if t.kind == 'test' and ast.unparse(t.ast) in ('typ & 1 == 1', 'typ & 1', 'typ % 2 == 1', 'typ % 2', 'typ & 1 != 0')]
